@@ -420,7 +420,9 @@ func EncodeBits(bits []bool, compact bool, layers int) (*Symbol, error) {
 // symbol is only considered after the four compact ones, in order of layers)
 // that holds bits plus minECPercent % + 11 bits of error correction, the rule
 // used by ZXing's encoder (11 bits ~ the 3 extra check words recommended by
-// the standard).
+// the standard).  In addition (stricter than ZXing, which can end up with 2
+// check words when minECPercent is tiny) at least 3 check words are required,
+// as the standard demands.
 func EncodeAuto(bits []bool, minECPercent int) (*Symbol, error) {
 	eccBits := len(bits)*minECPercent/100 + 11
 	need := len(bits) + eccBits
@@ -451,7 +453,7 @@ func EncodeAuto(bits []bool, minECPercent int) (*Symbol, error) {
 			continue
 		}
 		usable := total - total%w
-		if len(stuffed)*w+eccBits <= usable {
+		if len(stuffed)*w+eccBits <= usable && total/w-len(stuffed) >= 3 {
 			return Encode(stuffed, sh.compact, sh.layers)
 		}
 	}
